@@ -69,7 +69,6 @@ func (v4pr Vector4PropertyReader) buildBinary(element Element, endian binary.Byt
 
 		if scalar.PropertyName == v4pr.PlyPropertyW {
 			wOffset = totalSize
-			scalarType = scalar.Type
 
 			if string(scalarType) == "" {
 				scalarType = scalar.Type
